@@ -51,6 +51,13 @@ def c_vec_sum(ctx, a, axis=None):
   return s
 
 
+def _vv(ctx, x):
+  if isinstance(x, VecV):
+    return x.val
+  t = to_z3(num(ctx, x))
+  return z3.ToReal(t) if t.is_int() else t
+
+
 def vec_globals():
   g = real_globals()
 
@@ -62,7 +69,8 @@ def vec_globals():
   for mod in (g['jnp'], g['jax'].attrs['numpy']):
     mod.attrs.update(
         exp=Handler(v_exp, 'jnp.exp'),
-        maximum=Handler(lambda ctx, a, b: VecV(zmax(a.val, b.val)), 'jnp.maximum'),
+        maximum=Handler(lambda ctx, a, b: VecV(zmax(_vv(ctx, a), _vv(ctx, b))), 'jnp.maximum'),
+        minimum=Handler(lambda ctx, a, b: VecV(z3.If(_vv(ctx, a) <= _vv(ctx, b), _vv(ctx, a), _vv(ctx, b))), 'jnp.minimum'),
         zeros_like=Handler(lambda ctx, a: VecV(z3.RealVal(0)), 'jnp.zeros_like'),
         sum=Handler(c_vec_sum, 'jnp.sum'))
   return g
@@ -523,6 +531,7 @@ def v_apfl(p):
 def build(p):
   D = 'native/C17.py'
   p.native('', D, 'invariants')
+  p.native('update_domain_weights', D, 'eg')
   v_update_domain_weights(p)
   v_window(p)
   v_alpha(p)
